@@ -1,6 +1,6 @@
 import CircBuf.Lemmas.TieTac
 import CircBuf.Lemmas.Tie.PushPop
-import CircBuf.Lemmas.Swap
+import CircBuf.Lemmas.NonDefect
 set_option linter.unusedSimpArgs false
 set_option linter.unusedVariables false
 set_option maxHeartbeats 1000000
@@ -8,9 +8,11 @@ set_option maxHeartbeats 1000000
 namespace CircBuf
 
 /-! ### swap / swap_remove -/
-theorem tie_swap (i j : Nat) (s : Sys) (h : Inv s.buf) :
+theorem tie_swap (i j : Nat) (s : Sys) (h : Inv s.buf)
+    (hnd : NonDefect (swap i j s).1) :
     Gen.swap i j s = swap i j s := by
-  tie2 h [Gen.swap, swap]
+  tie3 h hnd [Gen.swap, swap]
+
 /-- the documented panics of `swap`, evaluated directly on the translated body (no invariant needed) -/
 theorem gen_swap_panics_i (s : Sys) (i j : Nat) (hi : ¬ i < s.buf.size) :
     Gen.swap i j s = (.error (.doc "swap_i"), s) := by
@@ -19,26 +21,36 @@ theorem gen_swap_panics_j (s : Sys) (i j : Nat) (hi : i < s.buf.size) (hj : ¬ j
     Gen.swap i j s = (.error (.doc "swap_j"), s) := by
   tie [Gen.swap]
 
-theorem tie_swap_remove_back (i : Nat) (s : Sys) (h : Inv s.buf) :
+/-- `swap_remove_back`: by unfolding the whole fragment; if the body still is `swap` followed by
+`pop_back`, through the ties of those two -/
+theorem tie_swap_remove_back (i : Nat) (s : Sys) (h : Inv s.buf)
+    (hnd : NonDefect (swapRemoveBack i s).1) :
     Gen.swap_remove_back i s = swapRemoveBack i s := by
-  simp only [Gen.swap_remove_back, swapRemoveBack, getBuf_bind, bind_assoc_run, ite_run, pure_run, liftE_bind]
-  split
-  · rfl
-  · rename_i hlt
-    have hi : i < s.buf.size := by omega
-    have hu : usub s.buf.size 1 = .ok (s.buf.size - 1) := by simp [usub]; omega
-    simp only [hu, bind_run, tie_swap i (s.buf.size - 1) s h]
-    obtain ⟨b', e, hI', _⟩ := swap_spec s i (s.buf.size - 1) h hi (by omega)
-    simp only [e, tie_pop_back { s with buf := b' } hI', pure_run]
-theorem tie_swap_remove_front (i : Nat) (s : Sys) (h : Inv s.buf) :
+  first
+  | (simp only [Gen.swap_remove_back, swapRemoveBack, getBuf_bind, bind_assoc_run, ite_run, pure_run, liftE_bind]
+     split
+     · rfl
+     · rename_i hlt
+       have hi : i < s.buf.size := by omega
+       have hu : usub s.buf.size 1 = .ok (s.buf.size - 1) := by simp [usub]; omega
+       simp only [hu, bind_run, tie_swap i (s.buf.size - 1) s h (nd_swap _ _ s h)]
+       obtain ⟨b', e, hI', _⟩ := swap_spec s i (s.buf.size - 1) h hi (by omega)
+       simp only [e, tie_pop_back { s with buf := b' } hI' (nd_popBack _ hI'), pure_run]
+       done)
+  | (tie3 h hnd [Gen.swap_remove_back, swapRemoveBack]; done)
+theorem tie_swap_remove_front (i : Nat) (s : Sys) (h : Inv s.buf)
+    (hnd : NonDefect (swapRemoveFront i s).1) :
     Gen.swap_remove_front i s = swapRemoveFront i s := by
-  simp only [Gen.swap_remove_front, swapRemoveFront, getBuf_bind, bind_assoc_run, ite_run, pure_run]
-  split
-  · rfl
-  · rename_i hlt
-    have hi : i < s.buf.size := by omega
-    simp only [bind_run, tie_swap i 0 s h]
-    obtain ⟨b', e, hI', _⟩ := swap_spec s i 0 h hi (by omega)
-    simp only [e, tie_pop_front { s with buf := b' } hI', pure_run]
+  first
+  | (simp only [Gen.swap_remove_front, swapRemoveFront, getBuf_bind, bind_assoc_run, ite_run, pure_run]
+     split
+     · rfl
+     · rename_i hlt
+       have hi : i < s.buf.size := by omega
+       simp only [bind_run, tie_swap i 0 s h (nd_swap _ _ s h)]
+       obtain ⟨b', e, hI', _⟩ := swap_spec s i 0 h hi (by omega)
+       simp only [e, tie_pop_front { s with buf := b' } hI' (nd_popFront _ hI'), pure_run]
+       done)
+  | (tie3 h hnd [Gen.swap_remove_front, swapRemoveFront]; done)
 
 end CircBuf
